@@ -44,9 +44,15 @@ FAULTS = {
     'error-directive': ['error boom', '  error this board is not supported # really', 'error see docs\\usage.txt', 'error C:\\new\\x', 'error trailing backslash \\',
                         # the parser takes the keyword in any case and after any whitespace
                         'ERROR board not supported', 'Error two words', 'error\tboard not supported', '  ERROR\tindented and tabbed', 'error  two spaces'],
+    # a string whose escape sequence is truncated / names no character / yields a lone surrogate: the text cannot be encoded, the line must be reported
+    'malformed-string': ['string C:\\', 'string \\x4', 'string abc\\xZZ', 'string \\u12', 'string \\U99999999', 'string \\N{NO SUCH NAME}', 'string \\ud800', 'string a\\udc00b',
+                         '  string tab\\x', 'STRING \\u1'],
     'missing-include': ['include nothere.asm', 'include "sub/nothere.asm"'],
     'missing-include-bytes': ['include_bytes nothere.bin'],
 }
+
+# lines that the current assembler refuses but that are not faulty in themselves (an assembler that takes a modifier there is fine): only HOW they are refused is judged
+MAY_ACCEPT = {'j %offset(L0)', 'beqz x8, %offset(L0)', 'bgtu x5, x6, %offset(L0)', 'call %offset(L0)\nalign 4'}
 
 PRE = ['# header comment', '', '{T}_a:', '    addi x8, x8, {N}   # count', '', '  li x9, 0x12345', '    beq x8, x0, {T}_a']
 POST = ['{T}_K = {N} + 100', '', '# data', 'dw {T}_K', 'align 4', 'nop']
@@ -106,6 +112,9 @@ def fault_case(ctx, case):
         msg = kernel.errline(e)
     mode = 'c' if comp else 'u'
     first = case['fault'].split()[0]
+    if got[0] == 'accepted' and case['fault'] in MAY_ACCEPT:
+        ctx.count('accepted_not_faulty')
+        return
     if got[0] == 'accepted':
         ctx.violation('%s:%s:%s:accepted:%s' % (PROP, case['klass'], first, mode), 'faulty line %r (%s) at %s:%d is accepted' % (case['fault'], case['klass'], case['file'], want_line),
                       'fault_case', case, expected='AssemblerError at %s:%d' % (case['file'], want_line), observed='accepted')
